@@ -1,36 +1,23 @@
 ------------------------------- MODULE VMEnum -------------------------------
-(* Enumeration specification (DESIGN 3.4 c): one state per case; the invariant Emit prints
-   (program, initial stack) |-> (final stack | FAULT) as JSON after the marker @@CASE@@.
-   Initial states are chunks of the case list so that TLC's workers evaluate cases in parallel. *)
-EXTENDS VMCases2, Json
+(* Enumeration specification (DESIGN 3.4 c): one state per case; while the successor is generated the case
+   (program, initial stack) |-> (final stack | FAULT) is printed as JSON after the marker @@CASE@@.
+   Initial states are chunks of the case list so that TLC's workers evaluate cases in parallel.
+   WfOk is the model-level sanity invariant of the executable specification itself. *)
+EXTENDS VMCases2, VMOut
 
 CONSTANT Chunks
-VARIABLES chunk, idx
-
-\* ---- output projection: long byte strings are replaced by length, ends and a sampled checksum
-RECURSIVE CkRec(_, _, _)
-CkRec(s, k, acc) == IF k > 127 THEN acc
-                    ELSE CkRec(s, k + 1, (acc + s[1 + (k * (Len(s) - 1)) \div 127] * (k + 1)) % 65521)
-Proj(s) == [len |-> Len(s), head |-> SubSeq(s, 1, 16), tail |-> SubSeq(s, Len(s) - 15, Len(s)), ck |-> CkRec(s, 0, 0)]
-OutV(v) == IF v.t = "ByteString" /\ Len(v.s) > 64 THEN [t |-> "ByteString", long |-> Proj(v.s)] ELSE v
-OutSeq(s) == [i \in 1..Len(s) |-> OutV(s[i])]
-OutObj(o) == CASE o.k = "Buffer" -> (IF Len(o.s) > 64 THEN [k |-> "Buffer", long |-> Proj(o.s)] ELSE o)
-               [] o.k = "Map" -> [k |-> "Map", keys |-> OutSeq(o.keys), vals |-> OutSeq(o.vals)]
-               [] OTHER -> [k |-> o.k, items |-> OutSeq(o.items)]
+VARIABLES chunk, idx, wf
 
 Fuel == 400
-Eval(c) == LET m == Run(LoadCase(c), Fuel)
-           IN [fam |-> c.fam, prog |-> c.prog, init |-> c.init, st |-> m.st, opq |-> m.opq, quirk |-> m.quirk,
-               stack |-> IF m.st = "HALT" THEN OutSeq(m.stack) ELSE <<>>,
-               heap |-> IF m.st = "HALT" THEN [i \in 1..Len(m.heap) |-> OutObj(m.heap[i])] ELSE <<>>]
-
-\* AllCases is bound once per chunk (LET values are evaluated once per evaluation of Next); the case is printed while
-\* the successor is generated, by the worker that owns the chunk.
-Init == chunk \in 1..Chunks /\ idx = 0
+\* AllCases is bound once per chunk (LET values are evaluated once per evaluation of Next)
+Init == chunk \in 1..Chunks /\ idx = 0 /\ wf = TRUE
 Next == /\ idx = 0
         /\ LET cs == AllCases IN
            \E i \in {j \in 1..Len(cs) : j % Chunks = chunk % Chunks} :
+               LET m == Run(LoadCase(cs[i]), Fuel) IN
                /\ idx' = i
-               /\ PrintT(<<"@@CASE@@", ToJson([id |-> i] @@ Eval(cs[i]))>>)
+               /\ wf' = WellFormed(m)
+               /\ PrintT(<<"@@CASE@@", ToJson([id |-> i] @@ OutCase(cs[i], m))>>)
         /\ UNCHANGED chunk
+WfOk == wf
 =============================================================================
